@@ -1,11 +1,18 @@
 """Documents engine: C01 C02 C04 (this file), C11 (docs_attr.py), C03 (docs_cost.py).
 
 spec -> impl: MC_Doc.tla (writer over the token machine XmlDoc.tla, text by XmlSurface.tla; exhaustive up to
-              a token bound, -simulate beyond) emits REPLAY lines {toks, style, text, wf, viol, tree};
-              harness `doc-replay` parses each text in both DOM views, projects, round-trips.
-impl -> spec: harness `doc-record` (seeded random token sequences and token edits, rendered by the spec:
-              Trace_Doc in render mode) ; every judged event is decided by Trace_Doc.tla, which re-derives
-              the expectation from the recorded tokens.
+              a token bound from the empty document and from a fixed rich DTD, -simulate beyond; invariants:
+              machine = recogniser fold, style independence and ill-formedness of bad renderings through the
+              independent scanner XmlLex.tla, printer round trip XmlPrint.tla) emits REPLAY lines
+              {toks, style, text, wf, viol, inprofile, tree}; harness `doc-replay` parses each text in the raw
+              and merged DOM views and through the xml_info accessors, projects, prints / re-parses / re-prints.
+impl -> spec: harness `doc-record` (seeded random token sequences, 1-2 token edits, deep nesting) and
+              `doc-textedit` (1-2 character edits of well-formed renderings); what these are (well-formed or
+              not, why, what they denote, how they are written) is decided by the specification: Trace_Doc.tla
+              in render mode (Recognize + Render) resp. text mode (XmlLex + Recognize).
+one judge:    every event that is not trivially ok (and a slice of those that are) goes to Trace_Doc.tla, which
+              re-derives the expectation from the recorded tokens / text and names the verdict.
+Development aids (decide nothing): docs_sanity.py (the SPEC against expat), docs_triage.py, docs_diff.py.
 """
 import json
 import os
